@@ -676,6 +676,10 @@ impl std::ops::Mul<Interval> for Interval {
                 k += 1;
             }
         }
+        if out.iter().any(|v| v.is_nan()) {
+            // 0 * infinity: the product is indeterminate
+            return f32::NAN.into();
+        }
         let mut lower = out[0];
         let mut upper = out[0];
         for &v in &out[1..] {
@@ -721,6 +725,10 @@ impl std::ops::Div<Interval> for Interval {
                     out[k] = i / j;
                     k += 1;
                 }
+            }
+            if out.iter().any(|v| v.is_nan()) {
+                // infinity / infinity: the quotient is indeterminate
+                return f32::NAN.into();
             }
             let mut lower = out[0];
             let mut upper = out[0];
